@@ -20,16 +20,22 @@ TAINT_STRINGS = {
     "S3": "__import__('builtins').TAINT_3()",
     "S4": "1 if TAINT_4() else 0",     # starts like a number
     "S5": "-2+TAINT_4()",
+    "S6": "\\\");__import__('builtins').TAINT_6();#",   # a backslash right before a double quote, then Python, then a comment
 }
 TOKENS = {
     "S1": "`TAINT_1()`", "S2": "`[TAINT_2(), 2]`", "S3": "`__import__('builtins').TAINT_3()`",
-    "S4": "`1 if TAINT_4() else 0`", "S5": "`-2+TAINT_4()`",
+    "S4": "`1 if TAINT_4() else 0`", "S5": "`-2+TAINT_4()`", "S6": "`\\\");__import__('builtins').TAINT_6();#`",
     "?": "?", "E": "E", "†": "†", "Ė": "Ė", ":": ":", "w": "w", "ɾ": "3ɾ", "list": "⟨`TAINT_1()`|2⟩", "lam": "λ`TAINT_1()`;",
     ",": ",", "…": "…", "₴": "₴", "¨,": "¨,", "¨…": "¨…", "err": "¼", "3": "3", "W": "W", "_": "_",
 }
-QUICK_TOKENS = ["S1", "S3", "S4", "?", "E", "†", "Ė", "w", "ɾ", "list", "lam", ",", "…", "₴", "¨,", "err", "3"]
+QUICK_TOKENS = ["S1", "S3", "S4", "S6", "?", "E", "†", "Ė", "w", "ɾ", "list", "lam", ",", "…", "₴", "¨,", "err", "3"]
 INPUTS = {"none": "", "expr": "TAINT_5()", "list": "[TAINT_6(), 1]", "three": "3", "two-lines": "TAINT_5()\n`x`",
-          "digit-expr": "2 if TAINT_7() else 0", "signed-expr": "-1+TAINT_7()", "float-expr": "1.5*TAINT_7()"}
+          "digit-expr": "2 if TAINT_7() else 0", "signed-expr": "-1+TAINT_7()", "float-expr": "1.5*TAINT_7()",
+          "quote-breakout": "`\\\");__import__('builtins').TAINT_7();#`",
+          # valid Python literals that have no Vyxal value: must be kept as strings / reported, never propagate
+          "None": "None", "list-with-None": "[1, None]", "ellipsis": "...", "inf": "1e999", "set": "{1, 2}", "dict": "{1: 2}",
+          "bytes": "b'x'", "tuple": "(1, 2)", "bool": "True", "complex": "1j", "nested-set": "{(1, 2)}"}
+LITERAL_INPUTS = ["None", "list-with-None", "ellipsis", "inf", "set", "dict", "bytes", "tuple", "bool", "complex", "nested-set", "quote-breakout"]
 FLAGS = ["", "c", "j", "W"]
 
 _calls = []
@@ -250,6 +256,9 @@ def run(tier, seed):
     inputs_names = ["none", "expr", "list", "digit-expr"] if quick else list(INPUTS)
     flags = ["", "j"] if quick else FLAGS
     explore.pmap(_shard, [(c, inputs_names, flags) for c in explore.chunks(programs, 128)], rep, seed)
+    # odd-but-valid literal inputs with every short program that reads / evaluates / prints input
+    lit_progs = [tuple(p) for n in (1, 2) for p in itertools.product(["?", "E", "Ė", ",", "w", "…", "_"], repeat=n)]
+    explore.pmap(_shard, [(c, LITERAL_INPUTS, ["", "j"]) for c in explore.chunks(lit_progs, 16)], rep, seed)
     rep.rule = ("all programs of <=%d tokens over %d symbols (3 tainted string literals, ? E † Ė : w range list lambda, every printing "
                 "element , … ₴ ¨, ¨…, an error-raising element)%s x inputs %s x flags %s through the real "
                 "execute_vyxal(code, flags+'e', inputs, out, online_mode=True). Observers: sys.addaudithook exec events whose code "
